@@ -142,6 +142,9 @@ def render_config(cfg, syntax, style=None):
         if cfg.get("file_patterns") or not style.get("omit_empty_table"):
             lines.append("[%s]" % fsec)
         for key, pats in cfg.get("file_patterns", []):
+            if style.get("ini_inline") and len(pats) == 1:
+                lines.append("%s = %s" % (key, pats[0]))
+                continue
             lines.append("%s =" % key)
             for p in pats:
                 lines.append("    %s" % p)
